@@ -162,13 +162,20 @@ def done (t : Node) : Res := ⟨t, .ok []⟩
 
 /-! ## node-level updates -/
 
+/-- the listed entry the new child hangs on: the entry of the new listing whose short slot is the one just written
+    (in a directory of well-formed shape that is `⟨sfn, units, p, p + n⟩` with `p` = where `find_free_entries` put the
+    run: `SlotTree.addKey_eq`; in a foreign directory with an orphaned long-name slot right before `p` the reader
+    attributes that slot to the new entry's range) -/
+def addKey (slots : List (List Nat)) (units sfn : List Nat) : LfnEntry :=
+  ((listing (writeEntry slots units sfn)).find? fun e =>
+      e.endIdx == findFree slots (numParts units.length + 1) + (numParts units.length + 1)).getD
+    ⟨sfn, units, findFree slots (numParts units.length + 1),
+      findFree slots (numParts units.length + 1) + (numParts units.length + 1)⟩
+
 /-- `write_entry` in this directory plus the new child -/
 def addEntry (units sfn : List Nat) (child : Node) : Node → Node
   | .file c => .file c
-  | .dir slots ch =>
-    .dir (writeEntry slots units sfn)
-      (ch ++ [(⟨sfn, units, findFree slots (numParts units.length + 1),
-                findFree slots (numParts units.length + 1) + (numParts units.length + 1)⟩, child)])
+  | .dir slots ch => .dir (writeEntry slots units sfn) (ch ++ [(addKey slots units sfn, child)])
 
 /-- the delete loop over the slot range of `e`; the child goes with it -/
 def delEntry (e : LfnEntry) : Node → Node
